@@ -17,6 +17,7 @@ import (
 //   ; S epoch block id w ...               sealing rule
 //   ; E i epoch creator seq lamport frame p1 p2 ...   event definition (parents = event numbers, self-parent first)
 //   ; P i | X i f | B ep cr seq lam p.. | b ep cr seq lam p.. | R | RESET ep id w .. | M i | G f
+//   ; W                                    Store.GetValidators (ids and weights in canonical order)
 //   ; Q i j                                ForklessCause(event i, event j) asked of the instance's index
 //   ; Y n ep cr seq lam frame p..          Process of an inline "ghost" event (id tail n) that is defined nowhere else
 //   ; ALTFROM ep id w ..                   (C09 only; no-op marker) the reference instance starts here
@@ -237,6 +238,7 @@ func execOne(sc *Scenario, groups [][]string, stat func(string)) []string {
 		first = false
 		out = append(out, toks...)
 	}
+	lastKind, lastBlocks := "", 0
 	for _, g := range groups {
 		switch g[0] {
 		case "E":
@@ -245,6 +247,7 @@ func execOne(sc *Scenario, groups [][]string, stat func(string)) []string {
 		case "ALTFROM":
 			continue
 		}
+		curBlocks := 0
 		if inst.Dead {
 			continue
 		}
@@ -265,6 +268,7 @@ func execOne(sc *Scenario, groups [][]string, stat func(string)) []string {
 				frame = pu(g[2])
 			}
 			res, bl := inst.Process(r.mk(d, frame))
+			curBlocks = len(bl)
 			stat("op_" + g[0] + "_" + strings.SplitN(res, ":", 2)[0])
 			if strings.HasPrefix(res, "s") {
 				emit(res)
@@ -272,6 +276,26 @@ func execOne(sc *Scenario, groups [][]string, stat func(string)) []string {
 			}
 			if len(bl) > 0 {
 				stat("blocks")
+			}
+			if len(bl) >= 2 {
+				stat("multi_block_call")
+			}
+			spfr := uint32(0)
+			if d.Seq > 1 && len(d.Parents) > 0 {
+				if pd, okp := r.defs[d.Parents[0]]; okp {
+					spfr = pd.Frame
+				}
+			}
+			if res == "ok" && frame >= spfr+2 {
+				stat("multiframe_root")
+			}
+			for k, b := range bl {
+				if b.Seal != nil && k >= 1 {
+					stat("seal_in_cascade")
+				}
+				if b.Seal != nil && frame >= spfr+2 {
+					stat("seal_by_multiframe_root")
+				}
 			}
 			for _, b := range bl {
 				if len(b.Cheaters) > 0 {
@@ -347,6 +371,12 @@ func execOne(sc *Scenario, groups [][]string, stat func(string)) []string {
 		case "R":
 			res, bl := inst.Restart()
 			stat("op_R")
+			if lastKind == "X" || lastKind == "Y" || lastKind == "b" {
+				stat("R_after_injected")
+			}
+			if lastBlocks >= 2 {
+				stat("R_after_multi_block_call")
+			}
 			toks := append([]string{"r" + res}, r.blocksTok(bl)...)
 			if !inst.Dead {
 				toks = append(toks, tail()...)
@@ -380,6 +410,14 @@ func execOne(sc *Scenario, groups [][]string, stat func(string)) []string {
 			}
 			stat("op_M")
 			emit(append([]string{"m"}, inst.Merged(h)...)...)
+		case "W":
+			stat("op_W")
+			toks := []string{"v"}
+			vv := inst.Validators()
+			for k, id := range vv.SortedIDs() {
+				toks = append(toks, fmt.Sprintf("%d:%d", uint32(id), uint32(vv.GetWeightByIdx(idx.Validator(k)))))
+			}
+			emit(toks...)
 		case "Q":
 			if len(g) < 3 {
 				emit("nodef")
@@ -411,6 +449,7 @@ func execOne(sc *Scenario, groups [][]string, stat func(string)) []string {
 		default:
 			emit("nodef")
 		}
+		lastKind, lastBlocks = g[0], curBlocks
 	}
 	return out
 }
